@@ -616,6 +616,9 @@ type Built struct {
 	Buses    []*a.Bus
 	Msgs     []*a.Message
 	Sigs     []a.Signal
+	MsgOf    map[*MsgSpec]*a.Message
+	SigOf    map[*SigSpec]a.Signal
+	SpecOf   map[a.EntityID]*SigSpec
 	Errs     []string
 }
 
@@ -637,7 +640,7 @@ func build(sp *Spec, pr *rng) *Built {
 		}
 		return pr.perm(n)
 	}
-	b := &Built{}
+	b := &Built{MsgOf: map[*MsgSpec]*a.Message{}, SigOf: map[*SigSpec]a.Signal{}, SpecOf: map[a.EntityID]*SigSpec{}}
 	b.Net = a.NewNetwork(sp.Name)
 	b.Net.SetDesc(sp.Desc)
 
@@ -812,6 +815,7 @@ func build(sp *Spec, pr *rng) *Built {
 				assign("message", m, ms.Attrs)
 				b.chk("AddSentMessage", ni.AddSentMessage(m))
 				b.Msgs = append(b.Msgs, m)
+				b.MsgOf[ms] = m
 				for _, rf := range ms.Recv {
 					recvs = append(recvs, pendingRecv{m, rf})
 				}
@@ -873,6 +877,8 @@ func (b *Built) newSignal(sp *Spec, ss *SigSpec, assign func(string, interface {
 	sig.SetSendType(a.SignalSendType(ss.SendType))
 	assign("signal", sig, ss.Attrs)
 	b.Sigs = append(b.Sigs, sig)
+	b.SigOf[ss] = sig
+	b.SpecOf[sig.EntityID()] = ss
 	return sig
 }
 
